@@ -1,5 +1,6 @@
 import PokerVerif.Lemmas.TBLedger
 import PokerVerif.Lemmas.TBOpen
+import PokerVerif.Lemmas.TBIndex
 import PokerVerif.Props.C01
 /-!
 # C02 — A hand's seat numbers denote the same players from open to settlement
@@ -9,12 +10,14 @@ table player: the list contains every dealt-in player exactly once, in clockwise
 engine starts with for entry i is that player's bankroll at open, every action accepted for entry i was submitted by
 that player, and entry i's result is credited to that player and nobody else.
 
-Proved here: start stacks, result credit, and stability of the list under everything that can happen to *other*
-players while the hand runs (reservations, batch joins, re-buys, add-ons, joins).  "Every dealt-in player exactly
-once, clockwise" (`calcGamePlayerIndexes`) is checked on the `opened` snapshot of every hand of every run by the
-monitors `handListExact` / `clockwise`, and identity of the entries on every later snapshot of the hand; it needs the
-seat-bookkeeping invariant of C03 over all histories and is not a theorem yet.  A *dealt-in* player leaving mid-hand
-breaks the list (known finding D7).
+Proved here: start stacks, result credit, stability of the list under everything that can happen to *other*
+players while the hand runs (reservations, batch joins, re-buys, add-ons, joins), and — `C02_hand_list` — that the list
+built by `calcGamePlayerIndexes` names exactly the dealt-in players, each once, clockwise from the start seat, for every
+table whose seat map and player list describe the same seating (`MapWF`; that this holds in every reachable state is the
+seat-bookkeeping invariant of C03, monitored on every observed state as `c03Inv` and not yet lifted over all histories).
+The same facts are checked on the `opened` snapshot of every hand of every run (`handListExact`, `clockwise`), and the
+identity of the entries on every later snapshot of the hand.  A *dealt-in* player leaving mid-hand breaks the list
+(known finding D7).
 -/
 namespace TB
 
@@ -101,6 +104,67 @@ theorem C02_stable (s : State) :
     · simp only
       have := modify_map s.players ‹Nat› (fun p => { p with bankroll := p.bankroll + c }) (·.id) (fun _ => rfl)
       split <;> exact ⟨rfl, by simpa [modAt] using this⟩
+
+/-- **C02 — the hand's list contains every dealt-in player exactly once, in clockwise seat order** (default rule; for
+every seat layout, button position incl. dead button / dead small blind, any sitting-out or busted players in between):
+whenever `openGame` succeeds on a table whose seat map and player list describe the same seating (`MapWF`, the
+seat-bookkeeping invariant of C03) and a start seat exists (`handStart ≠ -1`: the dealer is dealt in, or some dealt-in
+seat precedes the blinds), the list `GamePlayerIndexes` of the opened table
+* names exactly the dealt-in players (`pi ∈ gidx ↔ players[pi]` is dealt in),
+* names nobody twice,
+* and is the clockwise walk over all seats from the start seat, keeping the dealt-in ones. -/
+theorem C02_hand_list (s : State) (sm : SM.State) (hop : (openTable s sm).2 = .opened)
+    (hrule : s.cfg.rule ≠ .shortDeck) (wf : MapWF s.seatMap s.players) (hn : 0 < s.seatMap.length)
+    (hstart : handStart { s with sm := sm } (openTable s sm).1.players ≠ -1) :
+    (∀ pi, pi ∈ (openTable s sm).1.gidx ↔
+      (0 ≤ pi ∧ ∃ p, (openTable s sm).1.players[pi.toNat]? = some p ∧ p.participated = true)) ∧
+    (openTable s sm).1.gidx.Nodup ∧
+    (openTable s sm).1.gidx =
+      (walkSeats s.seatMap.length (handStart { s with sm := sm } (openTable s sm).1.players)).filterMap
+        (pickAt s.seatMap (partOf (openTable s sm).1.players)) := by
+  obtain ⟨ps, gi, ps2, hm, hgi, hap, heq⟩ := openTable_opened_shape s sm hop
+  rw [heq] at hstart ⊢
+  simp only [openedState] at hstart ⊢
+  -- the three lists agree on seats and on who is dealt in
+  have seats1 := mapM_keeps (·.seat) (fun _ _ => rfl) sm _ _ hm
+  have seats2 := assignPositions_map (·.seat) (fun _ _ => rfl) sm ps ps2 hap
+  have part2 := assignPositions_map (·.participated) (fun _ _ => rfl) sm ps ps2 hap
+  have both2 := assignPositions_map (fun p => (p.participated, p.seat)) (fun _ _ => rfl) sm ps ps2 hap
+  have wfps : MapWF s.seatMap ps := MapWF.of_seats _ _ _ seats1 wf
+  have hst : handStart { s with sm := sm } ps2 = handStart { s with sm := sm } ps := handStart_congr _ _ _ both2
+  rw [hst] at hstart ⊢
+  have hpo : partOf ps2 = partOf ps := funext (partOf_congr ps ps2 part2)
+  rw [hpo]
+  obtain ⟨h1, h2, h3⟩ := gameIndexes_exact { s with sm := sm } ps gi hrule wfps hn hstart hgi
+  refine ⟨?_, h2, h3⟩
+  intro pi
+  rw [h1 pi]
+  have hel := getElem?_of_map_eq (·.participated) ps ps2 part2 pi.toNat
+  constructor
+  · rintro ⟨h0, p, hp, hpp⟩
+    rw [hp] at hel
+    cases hp2 : ps2[pi.toNat]? with
+    | none => rw [hp2] at hel; cases hel
+    | some p2 =>
+      rw [hp2] at hel
+      simp only [Option.map_some] at hel
+      exact ⟨h0, p2, rfl, (Option.some.inj hel).trans hpp⟩
+  · rintro ⟨h0, p2, hp2, hpp⟩
+    rw [hp2] at hel
+    cases hp : ps[pi.toNat]? with
+    | none => rw [hp] at hel; cases hel
+    | some p =>
+      rw [hp] at hel
+      simp only [Option.map_some] at hel
+      exact ⟨h0, p, rfl, (Option.some.inj hel).symm.trans hpp⟩
+
+-- non-vacuity of `C02_hand_list`: the state of the example history just before its first hand opens is consistent, the
+-- open succeeds, a start seat exists — and the list is the three dealt-in players clockwise from the dealer
+example : let t := run (create exCfg exBlind) (exHistory.take 8)
+    mapWFb t.seatMap t.players = true ∧ 0 < t.seatMap.length ∧ t.cfg.rule ≠ .shortDeck ∧
+    (openTable t (SM.init t.sm (some 0)).1).2 = .opened ∧
+    handStart { t with sm := (SM.init t.sm (some 0)).1 } (openTable t (SM.init t.sm (some 0)).1).1.players ≠ -1 ∧
+    (openTable t (SM.init t.sm (some 0)).1).1.gidx = [1, 2, 0] := by decide
 
 -- non-vacuity: the example history of C01 — three dealt in, an add-on to entry 1's player during the hand
 example : let t := run (create exCfg exBlind) (exHistory.take 9)
